@@ -179,7 +179,15 @@ func TestVerifPersist(t *testing.T) {
 		vsetNow(wall0)
 		vsetRand(0)
 		before := runtimeNumGoroutine()
-		src := NewStore(&StoreOptions[int, int]{MaxSize: size})
+		// in some streams a Cost function makes some values free: entries of cost 0 fill no room, also not in a region that is
+		// exactly full (C11 quantifies over mixed costs; the round-trip theorems admit cost 0)
+		zeroCosts := c%4 == 3
+		src := NewStore(&StoreOptions[int, int]{MaxSize: size, Cost: func(v int) int64 {
+			if zeroCosts && v%3 == 0 {
+				return 0
+			}
+			return 1
+		}})
 		vtakeover(src, before)
 		// the saving cache has been up for a while
 		uptime := int64(r.next() % (1 << 42))
@@ -208,6 +216,9 @@ func TestVerifPersist(t *testing.T) {
 			cost := int64(1)
 			if r.chance(25) {
 				cost = int64(1 + r.intn(4))
+			}
+			if zeroCosts && r.chance(60) {
+				cost = 0 // decided by the Cost function: 0 for every third value
 			}
 			src.Set(i, i*7+1, cost, ttl)
 			vdrainWrites(src)
